@@ -216,7 +216,7 @@ def is_other_oracle(desc):
 
 def classify(prop, job, r):
     """Decide one kani result. Returns dict(status=..., ...)"""
-    info = {"status": None, "failed_own": [], "failed_other": [], "covers_unsat": [], "notes": []}
+    info = {"status": None, "failed_own": [], "failed_other": [], "failed_panic": [], "covers_unsat": [], "notes": []}
     if r["compile_error"]:
         info["status"] = "compile_error"
         return info
@@ -244,6 +244,8 @@ def classify(prop, job, r):
             continue
         if st in ("SUCCESS", "UNREACHABLE"):
             continue
+        if "unwinding assertion" in d:
+            continue    # accounted for by unwind_failed / unwind_undet above
         if st == "FAILURE":
             if d == "WITNESS reached" or d.startswith("SENTINEL"):
                 info.setdefault("special", []).append(d)
@@ -253,8 +255,13 @@ def classify(prop, job, r):
                 # C01: panics, pointer checks, CheckLock discipline. C19/C20: the data structures' own debug assertions
                 # about their links, and any fault inside them, are violations of "links stay mutually consistent"
                 info["failed_own"].append(d)
-            else:
+            elif is_other_oracle(d):
                 info["failed_other"].append(d)
+            else:
+                # a panic / arithmetic overflow / failed debug assertion of the crate itself (or a Kani check) that is not an
+                # oracle of any property. Kani assumes the asserted condition afterwards, so every path THROUGH the panic is
+                # cut off: this property's own oracles cannot see what follows. Never ignored: see the confirmation phase.
+                info["failed_panic"].append(d)
         else:
             # UNDETERMINED etc.
             info["notes"].append("%s: %s" % (st, d))
@@ -383,7 +390,7 @@ def run_property(ctx, spec, t_start):
         r = ctx.kani(job["harness"], flags, cap, mem, "run")
         info = classify(prop, job, r)
         need_pb = (job["role"] == "witness" and "WITNESS reached" in info.get("special", [])) or \
-                  (job["role"] in ("hold",) and info["failed_own"] and job.get("replay"))
+                  (job["role"] in ("hold",) and (info["failed_own"] or info["failed_panic"]) and job.get("replay"))
         pb = None
         if need_pb:
             r2 = ctx.kani(job["harness"], flags + PLAYBACK_FLAGS, cap, mem, "playback")
@@ -416,7 +423,8 @@ def run_property(ctx, spec, t_start):
         results.append((job, r, info, pb))
         print("  [%s] %-46s %-9s %6.1fs vars=%d own_failed=%d%s" % (
             job["role"], short(job["harness"]), info["status"], r["wall_s"], r["sat_variables"],
-            len(info["failed_own"]), (" covers_unsat=%d" % len(info["covers_unsat"])) if info["covers_unsat"] else ""),
+            len(info["failed_own"]), ((" covers_unsat=%d" % len(info["covers_unsat"])) if info["covers_unsat"] else "") +
+            ((" crate_panics=%d" % len(info["failed_panic"])) if info["failed_panic"] else "")),
             flush=True)
     replayer = replayer_future.result()
     pool.shutdown()
@@ -483,6 +491,41 @@ def run_property(ctx, spec, t_start):
             continue
         if role == "step" and info["failed_own"]:
             step_cex.append((name, info["failed_own"]))
+            continue
+        if role in ("hold", "witness", "step") and info["failed_panic"] and not info["failed_own"]:
+            # A crate panic (overflow, unwrap, debug assertion) is reachable in this harness. In the build Kani models (dev
+            # profile) the operation panics - that is C01's clause. What THIS property's oracle says about the same input is
+            # decided by replaying the solver's values natively in the dev and in the release profile (where e.g. arithmetic
+            # wraps instead of panicking): if the property's own oracle fails there, it is a violation of this property;
+            # otherwise the property cannot be decided beyond the panic and the check is inconclusive (never "held").
+            hit = False
+            if role == "hold" and job.get("replay"):
+                if release_bin is None:
+                    release_bin = ctx.build_replayer(release=True) or False
+                for desc, script in [(d, sc) for d, sc in (pb or []) if d in info["failed_panic"]]:
+                    rp = job["replay"]
+                    outs = {}
+                    for prof, binary in (("dev", replayer), ("release", release_bin)):
+                        if not binary:
+                            continue
+                        rcx, outx = ctx.replay(binary, rp[0], rp[1], job.get("mask", registry.PALL), script)
+                        outs[prof] = outx
+                        msgx = outx.split("REPLAY-PANIC ", 1)[-1].strip()
+                        if rcx == 101 and own_oracle(prop, msgx) and not hit:
+                            decoded = registry.decode(rp[0], rp[1], script)
+                            kf = registry.match_known(known, prop, rp[0], decoded, msgx)
+                            path = write_replay_file(ctx, job, msgx + "  [native %s profile; Kani (dev profile) reports: %s]" % (prof, desc),
+                                                     script, outs)
+                            if kf:
+                                known_hits.append((kf, path))
+                            else:
+                                violations.append((msgx, path, name))
+                            hit = True
+                    if hit:
+                        break
+            if not hit:
+                inconclusive.append("%s: a crate panic is reachable (%s): paths through it are cut off, the property is not decided beyond it "
+                                    "(the panic itself is C01's clause)" % (name, info["failed_panic"][0]))
             continue
         if role in ("hold", "witness") and info["failed_own"]:
             if not job.get("replay"):
@@ -573,7 +616,7 @@ def write_evidence(ctx, spec, results, samples, t_start, status, violations, val
             if m and ("verif" not in m.group(1)) and (c["loc"].startswith("src/") or "/repo/src" in c["loc"]):
                 functions.add(m.group(1))
         solver_s += r["solver_s"]
-        dec = info["status"] == "decided" and not info["failed_own"] and not info["covers_unsat"]
+        dec = info["status"] == "decided" and not info["failed_own"] and not info["failed_panic"] and not info["covers_unsat"]
         if job["role"] == "witness":
             dec = info["status"] == "decided" and "WITNESS reached" in info.get("special", [])
         if job["role"] == "panic":
